@@ -64,8 +64,14 @@ static void *f_shim(void *addr, a_size size)
         f_logf("alloc", oldid, (long)size, 0, 0);
         return NULL; /* a failed realloc leaves the old block alive */
     }
-    void *np = realloc(old >= 0 ? addr : NULL, size);
+    /* a resize always moves the block (and releases the old one), so a pointer kept across a growing call is stale */
+    void *np = malloc(size);
     if (!np) { abort(); }
+    if (old >= 0)
+    {
+        memcpy(np, addr, f_live[old].size < size ? f_live[old].size : size);
+        free(addr);
+    }
     int id;
     if (old >= 0)
     {
